@@ -323,11 +323,11 @@ class World(object):
         es.push_async_callback(fn, *args, **kw)
         es._vs_reg("push_async_callback", fn, True)
 
-    def es(self, F, k, is_async):
+    def es(self, F, k, is_async, host=None):
         cls = ShadowAsyncExitStack if is_async else ShadowExitStack
         m = cls()
-        m._vs_init(self, F, k)
-        F.mgrs[k] = m
+        m._vs_init(self, host if host is not None else F, k)
+        (host if host is not None else F).mgrs[k] = m
         self.all_mgrs.append(m)
         return m
 
@@ -606,13 +606,12 @@ class ShadowExitStack(_ESMixin, contextlib.ExitStack):
 
     def __exit__(self, *exc):
         F = self._vF
-        e = F.find(self)
-        e.state = "exiting"
+        F.h_exiting(self)
         self._vW.ev("es_exit", self._vk)
         try:
             return super(ShadowExitStack, self).__exit__(*exc)
         finally:
-            F.shadow.remove(e)
+            F.h_exited(self)
 
 
 class ShadowAsyncExitStack(_ESMixin, contextlib.AsyncExitStack):
@@ -624,13 +623,12 @@ class ShadowAsyncExitStack(_ESMixin, contextlib.AsyncExitStack):
 
     async def __aexit__(self, *exc):
         F = self._vF
-        e = F.find(self)
-        e.state = "exiting"
+        F.h_exiting(self)
         self._vW.ev("aes_exit", self._vk)
         try:
             return await super(ShadowAsyncExitStack, self).__aexit__(*exc)
         finally:
-            F.shadow.remove(e)
+            F.h_exited(self)
 
 
 class ShadowAGCM(contextlib._AsyncGeneratorContextManager):
